@@ -83,4 +83,12 @@ class ListBuilder(Periodic):
                 "Starting list builder task. Interval %s",
                 self.interval,
             )
+            if self._run_at_start and not self.running:
+                # build the lists before the first event is validated,
+                # not some time after the server began to accept connections
+                self._run_at_start = False
+                try:
+                    await self.run_once()
+                except Exception:
+                    self.log.exception("run_once")
             await super().start()
